@@ -3,6 +3,7 @@ package checks
 import (
 	"fmt"
 	"math"
+	"strings"
 
 	"google.golang.org/protobuf/encoding/prototext"
 	"google.golang.org/protobuf/internal/encoding/text"
@@ -16,7 +17,7 @@ import (
 func init() {
 	core.Register(&core.Check{
 		ID:         "C24",
-		Rule:       "cases: (a) PRNG-filled messages (boundary scalars, NaN payloads, +-Inf, -0, 64-bit extremes, strings incl. non-UTF-8 in proto2 fields, extensions, groups, maps, oneofs, expanded and unexpanded Any, unknown fields sprinkled at several depths) of every linked message type (generated and dynamicpb) under the 8 combinations of Multiline, Indent, EmitASCII; oracle: Unmarshal(Marshal(m)) is Equal and snapshot-equal (floats by bit pattern, NaNs equal) to m without unknown fields; (b) float32 bit patterns through prototext on FloatValue and through the text encoder/tokenizer directly: a 2^20-stride sample plus a +-2 neighbourhood of every power of two and of 4096 PRNG patterns in quick, all 2^32 in thorough; 10^5 (quick) / 10^7 (thorough) doubles; distinct = distinct (type, options, output) or bit patterns; non-trivial = populated message / non-zero pattern",
+		Rule:       "cases: (local resolver) a dynamic schema known to a caller-supplied Resolver only - Any values embedding a message with extensions declared at file scope and inside a message, an extension of message type and a nested Any - marshalled (must be expanded) and parsed back with that Resolver under the 8 option sets; (a) PRNG-filled messages (boundary scalars, NaN payloads, +-Inf, -0, 64-bit extremes, strings incl. non-UTF-8 in proto2 fields, extensions, groups, maps, oneofs, expanded and unexpanded Any, unknown fields sprinkled at several depths) of every linked message type (generated and dynamicpb) under the 8 combinations of Multiline, Indent, EmitASCII; oracle: Unmarshal(Marshal(m)) is Equal and snapshot-equal (floats by bit pattern, NaNs equal) to m without unknown fields; (b) float32 bit patterns through prototext on FloatValue and through the text encoder/tokenizer directly: a 2^20-stride sample plus a +-2 neighbourhood of every power of two and of 4096 PRNG patterns in quick, all 2^32 in thorough; 10^5 (quick) / 10^7 (thorough) doubles; distinct = distinct (type, options, output) or bit patterns; non-trivial = populated message / non-zero pattern",
 		Assume:     []string{"proto.Equal and model/snapshot.go (bit-pattern float comparison)"},
 		Exhaustive: func(tier string) bool { return false },
 		Batches: func(tier string) []core.Batch {
@@ -31,7 +32,7 @@ func init() {
 		},
 		Gates: func(tier string) map[string]int64 {
 			return map[string]int64{"roundtrips": 10000, "dynamic": 1000, "with_unknown": 300, "with_any_expanded": 5, "with_extension": 10, "float32_patterns": 500000, "float32_via_prototext": 50000, "float64_patterns": 50000,
-				"opt:0": 500, "opt:1": 500, "opt:2": 500, "opt:3": 500, "opt:4": 500, "opt:5": 500, "opt:6": 500, "opt:7": 500}
+				"opt:0": 500, "opt:1": 500, "opt:2": 500, "opt:3": 500, "opt:4": 500, "opt:5": 500, "opt:6": 500, "opt:7": 500, "local_resolver_roundtrips": 60, "local_resolver_extensions_inside_any": 200}
 		},
 		Run: runC24,
 	})
@@ -54,6 +55,9 @@ func runC24(c *core.Ctx, b core.Batch) {
 	if b.Cfg != "base" {
 		nb = 4
 	}
+	if b.Cfg == "base" && b.N == 0 {
+		c24Local(c)
+	}
 	types := shard(codecTypes(b), b.N, nb)
 	per := c.Scale(16, 200)
 	for ti, mt := range types {
@@ -72,6 +76,56 @@ func runC24(c *core.Ctx, b core.Batch) {
 			for j := 0; j < 2; j++ {
 				c24Case(c, mt, m, want, dyn, (k*2+j+ti)%8)
 			}
+		}
+	}
+}
+
+// c24Local round-trips Any values whose embedded message and its extensions
+// are known to a caller-supplied resolver only.
+func c24Local(c *core.Ctx) {
+	la, err := newLocalAny(24)
+	if err != nil {
+		c.Violation("harness:local-schema-invalid", map[string]any{"err": errStr(err)})
+		return
+	}
+	for k := 0; k < c.Scale(200, 4000); k++ {
+		r := c.Rng(uint64(0x24a)<<32 | uint64(k))
+		want, nx := la.content(r, false)
+		ws := la.snap(want)
+		opts := c24Opts(k % 8)
+		opts.Resolver = la.types
+		opts.AllowPartial = true
+		c.Eval()
+		c.Count("local_resolver_roundtrips")
+		c.CountN("local_resolver_extensions_inside_any", int64(nx))
+		c.Log("C24 local-resolver case=%d opts=%d snapshot=%s", k, k%8, clip(ws.String(), 4000))
+		var out []byte
+		var err error
+		if !c.NoPanic("text:local-resolver:marshal-panic", map[string]any{"snapshot": clip(ws.String(), 2000)}, func() { out, err = opts.Marshal(want.Interface()) }) {
+			continue
+		}
+		if err != nil {
+			c.Violation("text:local-resolver:marshal-error", map[string]any{"err": errStr(err), "snapshot": clip(ws.String(), 2000)})
+			continue
+		}
+		c.DistinctBytes([]byte("local"), out)
+		if !strings.Contains(string(out), "[type.googleapis.com/"+la.pkg+".Host]") {
+			c.Violation("text:local-resolver:any-not-expanded", map[string]any{"text": clip(string(out), 2000)})
+			continue
+		}
+		got := la.carrier.New()
+		var uerr error
+		if !c.NoPanic("text:local-resolver:unmarshal-panic", map[string]any{"text": clip(string(out), 3000)}, func() {
+			uerr = prototext.UnmarshalOptions{AllowPartial: true, Resolver: la.types}.Unmarshal(out, got.Interface())
+		}) {
+			continue
+		}
+		if uerr != nil {
+			c.Violation("text:local-resolver:unmarshal-error-on-own-output", map[string]any{"err": errStr(uerr), "text": clip(string(out), 3000)})
+			continue
+		}
+		if gs := la.snap(got); gs.String() != ws.String() {
+			c.Violation("text:local-resolver:roundtrip:"+firstDiff(ws, gs), map[string]any{"text": clip(string(out), 3000), "want": clip(ws.String(), 1500), "got": clip(gs.String(), 1500)})
 		}
 	}
 }
